@@ -534,3 +534,4 @@ def replay(ctx, payload):
         c06.eval_rw_cases(ctx, [payload["case"]])
     else:
         eval_cases(ctx, [payload["case"]], independent_struct_table(common.REPO))
+THEOREMS += ['gen_read_packets', 'gen_write_packets', 'gen_write_across_link', 'gen_fill']   # translator tie: generated function bodies = model (Props/C07Gen.lean)
